@@ -107,6 +107,13 @@ def main():
     print('\n%d changes, %d caught by their own property\'s check' % (len(results), len(results) - len(missed)))
     with open(os.path.join(HERE, 'selftest_last.json'), 'w') as f:
         json.dump(results, f, indent=1)
+    # cumulative record (committed): latest verdict per change
+    cum_path = os.path.join(HERE, 'selftest_results.json')
+    cum = json.load(open(cum_path)) if os.path.exists(cum_path) else {}
+    for name, verdict, detail in results:
+        cum[name] = {'verdict': verdict, 'detail': detail, 'tier': tier}
+    with open(cum_path, 'w') as f:
+        json.dump(cum, f, indent=1, sort_keys=True)
     return 1 if missed else 0
 
 
